@@ -163,6 +163,31 @@ fn check_route(c: &Case, cs: &mut CaseStats, with_faces: bool) -> Result<(), Str
             if !well {
                 cs.count("cells_skipped_ill_conditioned", 1);
                 cs.label("known-finding:ill-conditioned");
+                // The split of a facet between the faces of an ill-conditioned cell (and with it
+                // every single area and centroid, also what a neighbour reports for them) is the
+                // known finding; the closure of the cell's OWN decomposition is not: whatever
+                // point of a degenerate edge a vertex was placed on, the signed triangles fed to
+                // the face integrals of this cell tile a closed surface, so the area weighted
+                // normals of the faces as this cell itself integrates them (non-symmetric face
+                // integrals, projection based decomposition) still sum to zero within the same
+                // tolerance (measured headroom on the unchanged tree: 1e5).
+                if !with_faces {
+                    if let Some(cc) = vi.get_cell_at(i) {
+                        let own = cc.compute_face_integrals::<(), obs::PlaneFace>(());
+                        let mut sum_own = DVec3::ZERO;
+                        for f in &own {
+                            let p = f.integral();
+                            sum_own += p.area * -cc.clipping_planes[p.plane_idx].normal();
+                        }
+                        let surf = ball_surface(d, info.r);
+                        let tol_own = (info.pos * surf / info.r.max(1e-300) * 2. + 1e-11 * surf).max(info.pos * (2. * std::f64::consts::PI * info.r + 2.) * own.len() as f64);
+                        cs.max("closure_own_faces_ill_conditioned_over_tol", sum_own.length() / tol_own);
+                        if sum_own.length() > tol_own {
+                            return Err(format!("cell {i} (ill-conditioned): the area weighted outward normals of the faces as the cell itself integrates them sum to {:?} (|.| = {:e} > tol {:e})", sum_own, sum_own.length(), tol_own));
+                        }
+                        cs.count("ill_conditioned_cells_closed_by_own_faces", 1);
+                    }
+                }
                 continue;
             }
             let surf = ball_surface(d, info.r);
